@@ -8,7 +8,7 @@ declare -A MAP=(
  [chan_mod8]="C15" [reset_forgets_value_lsb]="C17 C11" [number_lsb_keeps_value_lsb]="C10 C11"
  [low7_mask_3f]="C07 C09 C01" [polykey_swapped]="C01 C02 C03" [predicate_drops_inc_dec]="C16"
  [vec_scratch_in_feed]="C18" [static_scratch]="C17 C08" [tryfrom_i16_no_negative_check]="C04 C05"
- [serde_try_from_removed]="C19" [stored_byte_77]="C14 C12" [stale_pending_dropped]="C13 C14"
+ [serde_try_from_removed]="C19" [stored_byte_77]="C14 C12" [nrpn_stored_lsb_77]="C11 C10" [stale_pending_dropped]="C13 C14"
 )
 for m in "${@:-${!MAP[@]}}"; do
   git -C $WT checkout -q -- . && git -C $WT apply /verif/mutants/$m.diff || { echo "$m: patch failed"; continue; }
